@@ -211,7 +211,15 @@ fn run_history(h: &Vec<Act>, drop_table: bool) -> Outcome
             {
                 is_ruler = true;
                 let goal = if *a == Act::CleanStanza { Some("stanza.txt".to_string()) } else if *a == Act::CleanAside { Some("aside.txt".to_string()) } else { None };
-                let _ = clean(system.clone(), ".ruler", vec!["build.rules".to_string()], goal);
+                let cleaned = clean(system.clone(), ".ruler", vec!["build.rules".to_string()], goal);
+                /*  C10: after a clean that reported success none of the in-scope target files exists in the workspace
+                    (that their contents are in the cache is the C08 oracle; that the next build brings them back without
+                    running a command are the C01 / C02 oracles) */
+                if cleaned.is_ok()
+                {
+                    let in_scope : Vec<&str> = match a { Act::CleanStanza => vec!["stanza.txt"], Act::CleanAside => vec!["aside.txt", "copy.txt"], _ => vec!["stanza.txt", "poem.txt", "aside.txt", "copy.txt", "song.txt", "album.txt"] };
+                    for p in in_scope.iter() { if system.is_file(p) { complaints.push(("B-build-C10".to_string(), format!("{} is still in the workspace after a clean that reported success", p))); } }
+                }
             },
         }
         if is_ruler
@@ -246,7 +254,7 @@ fn run_history(h: &Vec<Act>, drop_table: bool) -> Outcome
 fn verif_build_histories()
 {
     let max_len : usize = std::env::var("VERIF_HISTORY_LEN").ok().and_then(|s| s.parse().ok()).unwrap_or(4);
-    let names = ["B-build-C01", "B-build-C02", "B-build-C04", "B-build-C07", "B-build-C08", "B-build-C09", "B-build-C18"];
+    let names = ["B-build-C01", "B-build-C02", "B-build-C04", "B-build-C07", "B-build-C08", "B-build-C09", "B-build-C10", "B-build-C18"];
     let mut bad = vec![0u64; names.len()]; let mut cases = 0u64;
     for len in 1..=max_len
     {
@@ -300,7 +308,7 @@ fn verif_build_long_histories()
         vec![Build, VerseB, NoteLikeVerseA, Build, Clean, VerseA, Build],
         vec![Build, HiddenGone, VerseB, Build, HiddenBack, Build],
     ];
-    let names = ["B-build-C01", "B-build-C02", "B-build-C04", "B-build-C07", "B-build-C08", "B-build-C09", "B-build-C18"];
+    let names = ["B-build-C01", "B-build-C02", "B-build-C04", "B-build-C07", "B-build-C08", "B-build-C09", "B-build-C10", "B-build-C18"];
     let mut bad = vec![0u64; names.len()];
     for h in hs.iter()
     {
